@@ -74,7 +74,7 @@ def run_iso(ctx, P):
                 cs = Candle.from_dicts([dict(open=v[0], high=v[1], low=v[2], close=v[3], volume=v[4], timestamp=s) for v, s in zip(vals, stamps)])
             ctx.equal(f"{form}: candle timestamps are the written wall-clock values", [ctx.sec_of(c.timestamp) for c in cs], ts)
             ref = ref_resample(ctx, cs, ts, tfs)
-            for label, pre, chunks in (("construction", n, []), ("singles", 0, [1] * n)):
+            for label, pre, chunks in (("construction", n, []), ("singles", 0, [1] * n), ("one-chunk", 0, [n]), ("preload1+chunk", 1, [n - 1])):
                 m = drive_manager(cs, tf, False, pre, chunks)
                 got = lib_view(ctx, m.candles)
                 if form == "Candle" and label == "construction":
@@ -124,7 +124,7 @@ def run(ctx, P):
         zone = symtime.FixedZone(k.t * 900) if P["zone"] == "fixed" else symtime.RuleZone(z3.IntVal(3600), DST_ON, DST_OFF)
         symtime.TZ_OFF[0] = zone
     try:
-        for label, pre, chunks in (("construction", n, []), ("singles", 0, [1] * n)):
+        for label, pre, chunks in (("construction", n, []), ("singles", 0, [1] * n), ("one-chunk", 0, [n]), ("preload1+chunk", 1, [n - 1])):
             if life:
                 from datetime import timedelta
                 _, _, _, CandleManager, _ = lib()
